@@ -1,2 +1,330 @@
-//! C08 workload (under construction).
-fn main() {}
+//! C08 — byte encodings (fixed arrays, vectors, borrowed slices, trimmed forms,
+//! copy-into-buffer forms) and the range-checking byte-slice decoders.
+
+use ruint::Uint;
+use vmon::{au, big, gen, uint, Arg, Mon};
+
+macro_rules! widths3 {
+    ($($b:literal),* $(,)?) => {
+        pub const WIDTHS: &[usize] = &[$($b),*];
+        pub fn dispatch(m: &mut Mon, bits: usize, op: &str, args: &[Arg]) {
+            match bits {
+                $($b => exec::<$b, { ($b + 63) / 64 }, { ($b + 7) / 8 }>(m, op, args),)*
+                _ => panic!("harness: width {bits} not instantiated"),
+            }
+        }
+    };
+}
+widths3!(0, 1, 7, 8, 9, 15, 16, 31, 32, 56, 57, 60, 63, 64, 65, 72, 100, 120, 124, 127, 128, 129, 188, 192,
+    250, 255, 256, 257, 320, 384, 512, 521, 1024, 4096);
+
+/// Little-endian base-256 digits of the value, exactly `n` bytes.
+fn le_digits(limbs: &[u64], n: usize) -> Vec<u8> {
+    let mut out = Vec::with_capacity(n);
+    for i in 0..n {
+        out.push((limbs[i / 8] >> (8 * (i % 8))) as u8);
+    }
+    out
+}
+
+fn trim_le(mut v: Vec<u8>) -> Vec<u8> {
+    while v.last() == Some(&0) {
+        v.pop();
+    }
+    v
+}
+
+/// Value denoted by a big-endian byte string, as (limbs for `bits`, fits).
+fn denote_be(bytes: &[u8], bits: usize) -> (Vec<u64>, bool) {
+    let v = num_bigint::BigUint::from_bytes_be(bytes);
+    let fits = big::fits(&v, bits);
+    (if fits { big::limbs(&v, gen::nlimbs(bits)) } else { vec![] }, fits)
+}
+
+fn exec<const B: usize, const L: usize, const NB: usize>(m: &mut Mon, op: &str, a: &[Arg]) {
+    match op {
+        "encode" => {
+            let limbs = a[0].u();
+            let x: Uint<B, L> = uint(limbs);
+            let le = le_digits(limbs, NB);
+            let be: Vec<u8> = le.iter().rev().copied().collect();
+            let le_t = trim_le(le.clone());
+            let be_t: Vec<u8> = le_t.iter().rev().copied().collect();
+            m.nontrivial(!gen::is_zero(limbs));
+            m.obs(|| format!("be={}", be.iter().map(|b| format!("{b:02x}")).collect::<String>()));
+            if let Some(v) = m.must_in("as_le_slice", || x.as_le_slice().to_vec()) {
+                m.eq("as_le_slice", &v, &le);
+            }
+            if let Some(v) = m.must_in("as_le_bytes", || x.as_le_bytes().into_owned()) {
+                m.eq("as_le_bytes", &v, &le);
+            }
+            if let Some(v) = m.must_in("as_le_bytes_trimmed", || x.as_le_bytes_trimmed().into_owned()) {
+                m.eq("as_le_bytes_trimmed", &v, &le_t);
+            }
+            if let Some(v) = m.must_in("to_le_bytes", || x.to_le_bytes::<NB>().to_vec()) {
+                m.eq("to_le_bytes", &v, &le);
+            }
+            if let Some(v) = m.must_in("to_be_bytes", || x.to_be_bytes::<NB>().to_vec()) {
+                m.eq("to_be_bytes", &v, &be);
+            }
+            if let Some(v) = m.must_in("to_le_bytes_vec", || x.to_le_bytes_vec()) {
+                m.eq("to_le_bytes_vec", &v, &le);
+            }
+            if let Some(v) = m.must_in("to_be_bytes_vec", || x.to_be_bytes_vec()) {
+                m.eq("to_be_bytes_vec", &v, &be);
+            }
+            if let Some(v) = m.must_in("to_le_bytes_trimmed_vec", || x.to_le_bytes_trimmed_vec()) {
+                m.eq("to_le_bytes_trimmed_vec", &v, &le_t);
+            }
+            if let Some(v) = m.must_in("to_be_bytes_trimmed_vec", || x.to_be_bytes_trimmed_vec()) {
+                m.eq("to_be_bytes_trimmed_vec", &v, &be_t);
+            }
+            // wrong array size must panic (documented)
+            m.must_panic(|| x.to_le_bytes::<{ 777 }>().len(), "BYTES mismatch");
+            // copy into buffers: exact, longer (tail untouched), shorter (panic / None, untouched)
+            for extra in [0usize, 1, 9] {
+                let mut buf = vec![0xa5u8; NB + extra];
+                if let Some(n) = m.must_in("copy_le_bytes_to", || x.copy_le_bytes_to(&mut buf)) {
+                    m.eq("copy_le_bytes_to.len", &n, &NB);
+                    m.eq("copy_le_bytes_to.bytes", &buf[..NB].to_vec(), &le);
+                    m.eq("copy_le_bytes_to.tail", &buf[NB..].to_vec(), &vec![0xa5u8; extra]);
+                }
+                let mut buf = vec![0xa5u8; NB + extra];
+                if let Some(n) = m.must_in("copy_be_bytes_to", || x.copy_be_bytes_to(&mut buf)) {
+                    m.eq("copy_be_bytes_to.len", &n, &NB);
+                    m.eq("copy_be_bytes_to.bytes", &buf[..NB].to_vec(), &be);
+                    m.eq("copy_be_bytes_to.tail", &buf[NB..].to_vec(), &vec![0xa5u8; extra]);
+                }
+                let mut buf = vec![0xa5u8; NB + extra];
+                if let Some(n) = m.must_in("checked_copy_le_bytes_to", || x.checked_copy_le_bytes_to(&mut buf)) {
+                    m.eq("checked_copy_le_bytes_to.len", &n, &Some(NB));
+                    m.eq("checked_copy_le_bytes_to.bytes", &buf[..NB].to_vec(), &le);
+                    m.eq("checked_copy_le_bytes_to.tail", &buf[NB..].to_vec(), &vec![0xa5u8; extra]);
+                }
+                let mut buf = vec![0xa5u8; NB + extra];
+                if let Some(n) = m.must_in("checked_copy_be_bytes_to", || x.checked_copy_be_bytes_to(&mut buf)) {
+                    m.eq("checked_copy_be_bytes_to.len", &n, &Some(NB));
+                    m.eq("checked_copy_be_bytes_to.bytes", &buf[..NB].to_vec(), &be);
+                    m.eq("checked_copy_be_bytes_to.tail", &buf[NB..].to_vec(), &vec![0xa5u8; extra]);
+                }
+            }
+            if NB > 0 {
+                for short in [NB - 1, NB / 2, 0] {
+                    let mut buf = vec![0xa5u8; short];
+                    m.must_panic(|| x.copy_le_bytes_to(&mut buf), "buffer too short");
+                    m.eq("copy_le_bytes_to.short-untouched", &buf, &vec![0xa5u8; short]);
+                    let mut buf = vec![0xa5u8; short];
+                    m.must_panic(|| x.copy_be_bytes_to(&mut buf), "buffer too short");
+                    m.eq("copy_be_bytes_to.short-untouched", &buf, &vec![0xa5u8; short]);
+                    let mut buf = vec![0xa5u8; short];
+                    if let Some(n) = m.must_in("checked_copy_le_bytes_to", || x.checked_copy_le_bytes_to(&mut buf)) {
+                        m.eq("checked_copy_le_bytes_to.short", &n, &None);
+                        m.eq("checked_copy_le_bytes_to.short-untouched", &buf, &vec![0xa5u8; short]);
+                    }
+                    let mut buf = vec![0xa5u8; short];
+                    if let Some(n) = m.must_in("checked_copy_be_bytes_to", || x.checked_copy_be_bytes_to(&mut buf)) {
+                        m.eq("checked_copy_be_bytes_to.short", &n, &None);
+                        m.eq("checked_copy_be_bytes_to.short-untouched", &buf, &vec![0xa5u8; short]);
+                    }
+                }
+            }
+            // decoding the encodings returns the value
+            let mut arr_le = [0u8; NB];
+            arr_le.copy_from_slice(&le);
+            let mut arr_be = [0u8; NB];
+            arr_be.copy_from_slice(&be);
+            if let Some(v) = m.must_in("from_le_bytes", || Uint::<B, L>::from_le_bytes::<NB>(arr_le)) {
+                m.eq_uint("from_le_bytes", &v, limbs);
+            }
+            if let Some(v) = m.must_in("from_be_bytes", || Uint::<B, L>::from_be_bytes::<NB>(arr_be)) {
+                m.eq_uint("from_be_bytes", &v, limbs);
+            }
+            for (name, bytes, is_be) in [("le", &le, false), ("le_trimmed", &le_t, false), ("be", &be, true), ("be_trimmed", &be_t, true)] {
+                let r = if is_be {
+                    m.must_in("try_from_be_slice", || Uint::<B, L>::try_from_be_slice(bytes))
+                } else {
+                    m.must_in("try_from_le_slice", || Uint::<B, L>::try_from_le_slice(bytes))
+                };
+                if let Some(r) = r {
+                    match r {
+                        Some(v) => {
+                            m.eq_uint(&format!("roundtrip.{name}"), &v, limbs);
+                        }
+                        None => m.fail(&format!("roundtrip.{name}.none"), "Some(value)", "None"),
+                    }
+                }
+            }
+        }
+        "decode_be" | "decode_le" => {
+            let bytes = a[0].b();
+            let is_be = op == "decode_be";
+            let be_view: Vec<u8> = if is_be { bytes.to_vec() } else { bytes.iter().rev().copied().collect() };
+            let (val, fits) = denote_be(&be_view, B);
+            let ok = bytes.len() <= NB && fits;
+            m.nontrivial(!bytes.is_empty());
+            m.obs(|| format!("len={} BYTES={NB} expected={}", bytes.len(), if ok { big::hex(&val) } else { "None".into() }));
+            let r = if is_be {
+                m.must_in("try_from_be_slice", || Uint::<B, L>::try_from_be_slice(bytes))
+            } else {
+                m.must_in("try_from_le_slice", || Uint::<B, L>::try_from_le_slice(bytes))
+            };
+            if let Some(r) = r {
+                match r {
+                    Some(v) => {
+                        if m.eq("try_from_slice.some", &true, &ok) {
+                            m.eq_uint("try_from_slice.value", &v, &val);
+                        } else {
+                            m.canonical(&v);
+                        }
+                    }
+                    None => {
+                        m.eq("try_from_slice.none", &true, &!ok);
+                    }
+                }
+            }
+            if ok {
+                let r = if is_be {
+                    m.must_in("from_be_slice", || Uint::<B, L>::from_be_slice(bytes))
+                } else {
+                    m.must_in("from_le_slice", || Uint::<B, L>::from_le_slice(bytes))
+                };
+                if let Some(v) = r {
+                    m.eq_uint("from_slice.value", &v, &val);
+                }
+            } else if is_be {
+                m.must_panic(|| Uint::<B, L>::from_be_slice(bytes), "value too large");
+            } else {
+                m.must_panic(|| Uint::<B, L>::from_le_slice(bytes), "value too large");
+            }
+            if bytes.len() == NB {
+                let mut arr = [0u8; NB];
+                arr.copy_from_slice(bytes);
+                if ok {
+                    let r = if is_be {
+                        m.must_in("from_be_bytes", || Uint::<B, L>::from_be_bytes::<NB>(arr))
+                    } else {
+                        m.must_in("from_le_bytes", || Uint::<B, L>::from_le_bytes::<NB>(arr))
+                    };
+                    if let Some(v) = r {
+                        m.eq_uint("from_bytes.value", &v, &val);
+                    }
+                } else if is_be {
+                    m.must_panic(|| Uint::<B, L>::from_be_bytes::<NB>(arr), "value too large");
+                } else {
+                    m.must_panic(|| Uint::<B, L>::from_le_bytes::<NB>(arr), "value too large");
+                }
+            }
+        }
+        _ => panic!("harness: unknown op {op}"),
+    }
+}
+
+fn both(m: &mut Mon, bits: usize, be: &[u8]) {
+    m.case("decode_be", bits, vec![Arg::B(be.to_vec())]);
+    let le: Vec<u8> = be.iter().rev().copied().collect();
+    m.case("decode_le", bits, vec![Arg::B(le)]);
+}
+
+fn workload(m: &mut Mon, bits: usize) {
+    let nb = (bits + 7) / 8;
+    let l = gen::nlimbs(bits);
+    // encoding: boundary + hostile values
+    for v in gen::boundary(bits) {
+        if !m.keep() {
+            continue;
+        }
+        m.case("encode", bits, vec![au(&v)]);
+    }
+    let mut r = m.stream("c08.encode", bits);
+    for i in 0..m.iters(if bits <= 512 { 1200 } else { 300 }) {
+        if i % 256 == 0 && m.time_up() {
+            break;
+        }
+        m.case("encode", bits, vec![au(&gen::hostile(&mut r, bits))]);
+    }
+    // decoding: every length 0..BYTES+8
+    let mut r = m.stream("c08.decode", bits);
+    let reps = m.iters(if bits <= 512 { 6 } else { 2 });
+    for len in 0..=nb + 8 {
+        if nb > 64 && len > 10 && len + 12 < nb && len % 8 > 1 {
+            continue;
+        }
+        if !m.keep() {
+            continue;
+        }
+        both(m, bits, &vec![0xffu8; len]);
+        both(m, bits, &vec![0u8; len]);
+        if len > 0 {
+            let mut z = vec![0u8; len];
+            z[0] = 1; // leading byte set (big-endian)
+            both(m, bits, &z);
+            let mut z = vec![0u8; len];
+            z[len - 1] = 1;
+            both(m, bits, &z);
+        }
+        for _ in 0..reps {
+            let mut s = r.bytes(len);
+            if len > 0 {
+                match r.below(4) {
+                    0 => s[0] = 0,
+                    1 => s[0] = 0x80,
+                    2 => s[0] = 1,
+                    _ => {}
+                }
+            }
+            both(m, bits, &s);
+        }
+    }
+    if !m.is_light() && nb <= 64 {
+        m.mark_exhaustive(format!("BITS={bits}: every slice length 0..=BYTES+8 for try_from_be/le_slice (contents: all-0xff, all-zero, single set byte, random)"));
+    }
+    // full-length strings: valid value with each excess high bit set, and values around 2^BITS
+    if bits > 0 {
+        let mut r = m.stream("c08.excess", bits);
+        let reps = m.iters(12);
+        for k in 0..reps {
+            let v = match k % 4 {
+                0 => gen::max(bits),
+                1 => gen::zero(bits),
+                2 => gen::alphabet(&mut r, bits),
+                _ => gen::uniform(&mut r, bits),
+            };
+            let le = le_digits(&v, nb);
+            let be: Vec<u8> = le.iter().rev().copied().collect();
+            both(m, bits, &be);
+            for extra in bits..8 * nb {
+                let mut b = be.clone();
+                b[0] |= 1 << (extra - 8 * (nb - 1));
+                both(m, bits, &b);
+            }
+            // all excess bits set
+            if bits % 8 != 0 {
+                let mut b = be.clone();
+                b[0] |= !((1u16 << (bits % 8)) - 1) as u8;
+                both(m, bits, &b);
+            }
+            // shorter strings (leading zeros dropped) and one byte longer with a zero / non-zero lead
+            if nb > 1 {
+                both(m, bits, &be[1..]);
+            }
+            let mut longer = vec![0u8];
+            longer.extend_from_slice(&be);
+            both(m, bits, &longer);
+            longer[0] = 1;
+            both(m, bits, &longer);
+        }
+    }
+    let _ = l;
+}
+
+fn main() {
+    let mut m = Mon::new("C08", dispatch);
+    if !m.replay_if_requested() {
+        for &bits in WIDTHS {
+            if m.width_enabled(bits) {
+                workload(&mut m, bits);
+            }
+        }
+    }
+    m.finish();
+}
